@@ -116,7 +116,13 @@ def binarizer_st(arms):
                           max_size=len(arms)).map(lambda ts: [[a, t] for a, t in zip(arms, ts)]),
         "default": st.sampled_from([2, 0.5, 3]),
     })
-    return st.one_of(thr, thr, st.just({"kind": "parity"}), st.just({"kind": "flip"}))
+    strkey = st.fixed_dictionaries({
+        "kind": st.just("strkey"),
+        "table": st.lists(st.sampled_from([1.5, 2, 3, 0.5, 5, -1, 10]), min_size=len(arms),
+                          max_size=len(arms)).map(lambda ts: [[str(a), t] for a, t in zip(arms, ts)]),
+        "default": st.sampled_from([2, 0.5, 3]),
+    })
+    return st.one_of(thr, thr, strkey, st.just({"kind": "parity"}), st.just({"kind": "flip"}))
 
 
 @st.composite
